@@ -92,7 +92,12 @@ def job(spec):
     rng = np.random.default_rng(spec["seed"])
     n, c, nbits = spec["N"], spec["C"], spec["nbits"]
     top = {1: 2, 2: 4, 4: 16, 8: 256, 32: 256}[nbits]
-    if spec["data"] == "identity":
+    if spec["data"] == "identity" and nbits == 32:
+        # 32-bit samples are floats: negative values and values far beyond one byte are ordinary data there
+        data = (np.arange(n * c, dtype=np.int64) * 37 - 3000).reshape(n, c)
+    elif spec["data"] == "random" and nbits == 32:
+        data = rng.integers(-20000, 20001, size=(n, c), dtype=np.int64)
+    elif spec["data"] == "identity":
         data = (np.arange(n * c, dtype=np.int64) % top).reshape(n, c)
     elif spec["data"] == "const":   # every tile mean is exactly an integer: the reduction to the output depth has nothing to round
         data = np.full((n, c), 1 + spec["seed"] % (top - 1) if top > 2 else 1, dtype=np.int64)
